@@ -15,6 +15,7 @@
 (* rank w belongs to layer i iff Stride(i) divides w, with layer rank w / Stride(i); the children of the layer-(i+1) patch     *)
 (* of process p are the layer-i patches of the processes p, p + Stride(i), ..., below p + Stride(i+1).                         *)
 (* Invariants (per layer and level): LayerShapeOK, Cover, PatchClosed, NeighbourSymmetricComplete, HaloAgree, BndPartOK,      *)
+(* per layer: NbrRanksAreLayerRanks, NbrsEqualHaloRanks, NbrsSymmetric (the stored neighbour ranks, in the layer's numbering);   *)
 (* RefinedWithin; across layers: ChildrenPartitionParent (the child patches of one parent partition the parent's patch and    *)
 (* ARE the patch mesh parts of the parent node, entity by entity), SiblingsOK, AncestryOK.                                    *)
 EXTENDS MeshTopo
@@ -114,6 +115,31 @@ NeighbourSymmetricComplete(C, l, lv, T) ==
         want == {LRank(C, l, v) : v \in {u \in Members(C, l) : Touch(T, w, u)}}
     IN /\ TRange(nb) = want /\ Cardinality(want) = Len(nb)
        /\ {hs[j].rank : j \in 1..Len(hs)} = want /\ Len(hs) = Cardinality(want)
+\* ---- the neighbour ranks of a layer (DomainLayer::set_neighbor_ranks: what gates and muxers of that layer talk to) -----------
+\* They are ranks of the LAYER's communicator - not child indices inside a progeny group, not world ranks -: in range, never the
+\* process itself, each once.  (In a multi-layered hierarchy extract_patch returns child indices within the progeny group; the
+\* control layer has to shift them by the group offset - for the groups with non-zero offset the two numberings differ.)
+Nbrs(C, l, w) == LayerRec(C, l, w).nbrs
+NbrRanksAreLayerRanks(C, l) ==
+  \A w \in Members(C, l) :
+    /\ \A j \in 1..Len(Nbrs(C, l, w)) : Nbrs(C, l, w)[j] \in (0..(LayerProcs(C)[l + 1] - 1)) \ {LRank(C, l, w)}
+    /\ Cardinality(TRange(Nbrs(C, l, w))) = Len(Nbrs(C, l, w))
+\* the halos of the patch carry exactly these ranks, on every level the layer holds
+NbrsEqualHaloRanks(C, l) ==
+  \A w \in Members(C, l) : \A lv \in Levels(C, l) :
+    LET hs == LevelRec(C, l, w, lv).halos IN
+      {hs[j].rank : j \in 1..Len(hs)} = TRange(Nbrs(C, l, w)) /\ Len(hs) = Len(Nbrs(C, l, w))
+\* 'is a neighbour' is symmetric across the processes of the layer
+NbrsSymmetric(C, l) ==
+  \A w \in Members(C, l) : \A v \in Members(C, l) :
+    (LRank(C, l, v) \in TRange(Nbrs(C, l, w))) <=> (LRank(C, l, w) \in TRange(Nbrs(C, l, v)))
+\* coverage: processes of the layer whose progeny group has a non-zero offset and that have a neighbour inside their own group
+GroupOffset(C, l, w) ==
+  IF l + 1 >= NLayers(C) THEN 0 ELSE LET k == LayerProcs(C)[l + 1] \div LayerProcs(C)[l + 2] IN LRank(C, l, w) - (LRank(C, l, w) % k)
+ShiftedSiblingNeighbours(C, l) ==
+  Cardinality({w \in Members(C, l) : GroupOffset(C, l, w) > 0 /\
+                 \E s \in TRange(Nbrs(C, l, w)) : s >= 0 /\ s < LayerProcs(C)[l + 1] /\ GroupOffset(C, l, WorldOf(C, l, s)) = GroupOffset(C, l, w)})
+
 \* both halos of a pair list exactly the shared entities Ent(a,d) \cap Ent(b,d), each once, in the same order
 HaloSeq(M, h, d) == [j \in 1..Len(h.t[d + 1]) |-> GEnt(M, d, h.t[d + 1][j])]
 HaloAgree(C, l, lv, T) ==
